@@ -380,8 +380,6 @@ def smaller(case):
 def shrink_one(item):
     from vf.explore import shrink
     fc, case = item
-    aspect = fc
-
     def still(c):
         try:
             r = fails_as(c)
@@ -492,6 +490,8 @@ def run(ctx):
         failing_variants=total['fail'], failure_buckets=len(buckets),
     )
     ctx.assumptions += [
+        'signatures: every failing case is reduced to a minimal failing case (any symptom); signature = symptom of that core + '
+        'the attributes it still needs; Loki\'s 30 s wall-clock REGEX-frontend timeout is switched off (load-dependent)',
         'base and variant are run with the same file discovery order (files sorted by lower-cased path)',
         'generated sources contain no string literal whose case could legitimately differ',
     ]
